@@ -309,7 +309,7 @@ def check_shift(ctx, kind, entry, offsets, extra=(), env=None, utc=False):
 DIFF_ITEMS = ["2015-12-31T23:59:59Z", "20160229T063101+0545", "2016-060T06:31:01-00:30", "2015-W53-4T23:59Z",
               "2000-01-01T00Z", "1999-12-31T24:00:00Z", "2000-01-01T01:00:00+01:00", "+000000-01-01T00:00:00Z",
               "+000001-001T00Z", "9999-12-31T23:59:59-12:00", "2016-02-29", "2016", "2015-12-31T23,5Z", "1970-01-01T00Z",
-              "2000-01-01T10:30:00Z", "2000-01-01T13:00:15+01:00"]
+              "2000-01-01T10:30:00Z", "2000-01-01T13:00:15+01:00", "2000-01-01T10:29:59,5Z"]
 DIFF_FORMATS = ["d,h,M,s", "h:M", "y/m/d h-M-s", "s M"]   # duration print formats: y m d h M s are fields, the rest literal
 DIFF_VALUES = None
 
@@ -511,7 +511,7 @@ def run_unit(unit, ctx):
                 ctx.state_count += 1
                 check_diff(ctx, kind, a, b, [], [], None)
                 check_diff(ctx, kind, a, b, [], [], None, fmt=DIFF_FORMATS[(DIFF_ITEMS.index(a) + DIFF_ITEMS.index(b)) % len(DIFF_FORMATS)])
-        for a, b in itertools.product(DIFF_ITEMS[-4:], repeat=2):
+        for a, b in itertools.product(DIFF_ITEMS[-5:], repeat=2):
             for fmt in DIFF_FORMATS:
                 check_diff(ctx, kind, a, b, [], [], None, fmt=fmt)
         for a, b in itertools.product(DIFF_ITEMS[:6], repeat=2):
@@ -694,6 +694,31 @@ def run_options(ctx):
                     ctx.violation("print_format", {"fmt": fmt}, {"kind": "options", "argv": [text, "-f", fmt]}, "exit", list(res))
             elif res != ("out", want):
                 ctx.violation("print_format", {"fmt": fmt}, {"kind": "options", "argv": [text, "-f", fmt, "-s", "PT1H"]}, want, list(res))
+    # print formats with directives only the Python datetime library knows fall back to it: the text POSIX strftime
+    # gives for the civil date-time of the (shifted) value in its own offset; M supplies the civil fields
+    import datetime as _dt
+    cg = M.cal("greg")
+    for text, rep, fld, tod in (("2016-02-29T06:31:01+05:45", "cal", (2016, 2, 29), 6 * 3600 + 31 * 60 + 1),
+                                ("2016-060T23:30:00Z", "ord", (2016, 60), 23 * 3600 + 30 * 60),
+                                ("2015-W53-4T12:00:00-05:00", "week", (2015, 53, 4), 12 * 3600),
+                                ("19991231T235959Z", "cal", (1999, 12, 31), 86399)):
+        local = cg.dn_from(rep, fld) * 86400 + tod + 3600
+        y, mo, d = cg.cal_from_dn(local // 86400)
+        t = local % 86400
+        civil = _dt.datetime(y, mo, d, t // 3600, t % 3600 // 60, t % 60)
+        for fmt in ("%A %d %B %Y", "%a %b %d %H:%M:%S %Y", "%y%m%d %I%p", "%d/%m/%y day %j week %U"):
+            ctx.transitions += 1
+            ctx.state_count += 1
+            res = run_main([text, "-f", fmt, "-s", "PT1H"])
+            if res != ("out", civil.strftime(fmt)):
+                ctx.violation("print_format_fallback", {"fmt": fmt}, {"kind": "options", "argv": [text, "-f", fmt, "-s", "PT1H"]},
+                              civil.strftime(fmt), list(res))
+    # --version prints the package version and nothing else
+    import metomi.isodatetime as _pkg
+    ctx.transitions += 1
+    res = run_main(["--version"])
+    if res != ("out", _pkg.__version__):
+        ctx.violation("version", {}, {"kind": "options", "argv": ["--version"]}, _pkg.__version__, list(res))
     # --as-total of a duration item
     for text, secs in (("PT1H", 3600), ("P1DT1M", 86460), ("\\-PT1H30M", -5400), ("P1W", 604800), ("PT0.5S", Fraction(1, 2))):
         for unit_, div in (("s", 1), ("M", 60), ("h", 3600)):
